@@ -106,7 +106,26 @@ def _kf12(entry):
             and _uses_nonconforming_default(c["_d"], c["_p"], c["_ns"]))
 
 
+def _kf05(entry):
+    """piecewise-parsed schema: the outer schema keeps bare references to the separately
+    parsed types, so the container header / canonical form are not self-contained"""
+    c = entry["case"]
+    if c.get("form") != "piecewise":
+        return False
+    if c.get("operation") == "container":
+        return "UnknownType" in str(c.get("_b"))
+    if c.get("operation") == "canonical_form":
+        a, b = c.get("_a"), c.get("_b")
+        return isinstance(a, str) and isinstance(b, str) and len(b) < len(a) and '"type":"' in b
+    return False
+
+
 BOUNDED = [
+    dict(id="KF05", property="C12", clause="forms_equivalent",
+         what=("a schema whose named types were parsed separately against a shared named-schema dictionary keeps bare "
+               "references: a container file written from it cannot be read back on its own (UnknownType) and its "
+               "canonical form does not contain the definitions"),
+         match=_kf05),
     dict(id="KF12", property="C10", clause="validate_equals_conforms",
          what=("validate checks an absent field's JSON default as if it were Python data: a float/double field with "
                "default \"NaN\" (or a bytes/fixed field with a string default) makes validate reject a record that "
@@ -133,6 +152,11 @@ FIXED = [
     "(history [write ok, write {'a': 7, 's': 3} fails, write ok, flush]: next record read back shifted / file undecodable)",
     "fixed: property=C08 e965be2 writer defines an enum/fixed/record inline where the reader schema refers to it by name "
     "(reader defined it in an earlier field): SchemaResolutionError instead of the resolved value",
+    "fixed: property=C11 40087d3 decimal precision 0 skipped the precision/scale checks ({precision: 0, scale: 2} accepted)",
+    "fixed: property=C10 b67b016 validate rejected (name, value) tuples naming enum / fixed / array / map / primitive branches "
+    "that the writers accept (validate(('E', 'A'), [enum E, 'string']) was False)",
+    "fixed: property=C11 8caf421 a union-typed field accepted any default as soon as one branch was not a bare primitive "
+    "([\"null\", array<int>] with default 5 or \"x\"); a boolean was accepted as the default of an int/long",
     "fixed: property=C18 6c01e0c read_decimal set the precision on a module-level decimal Context and then used it "
     "(schedule: A sets prec=9, B reads a precision-2 decimal, A resumes and returns 1.2E+6 for 1234567.89)",
 ]
